@@ -85,6 +85,7 @@ class Result:
         self.hist = {}
         self.disagreements = 0
         self.notes = []
+        self.direct_distinct = 0   # distinct cases counted by direct oracles (harness/num.c etc.)
         self.t0 = time.time()
 
 
@@ -250,7 +251,7 @@ def run_property(mod, tier, seed, replay=None):
                     msg = mod.oracle(s, il)
             if msg:
                 handle_violation(mod, res, harness, s, il, ist, ml, msg)
-            elif il != ml or mst != "ok":
+            elif not s.meta.get("impl_only") and (il != ml or mst != "ok"):
                 diffs_all.append((s, il, ist, ml, mst))
     res.disagreements = len(diffs_all)
 
@@ -335,7 +336,7 @@ def finish(mod, res):
             "trusted_base": TRUSTED_BASE + list(getattr(mod, "TRUSTED", [])),
             "obligation_list": [{"name": o[0], "ok": o[1], "detail": o[2][:300]} for o in res.obligations],
             "evaluations": res.evaluations,
-            "distinct_nontrivial": len(res.nontrivial),
+            "distinct_nontrivial": len(res.nontrivial) + res.direct_distinct,
             "rule": getattr(mod, "RULE", ""),
             "samples": res.samples or [{"note": "no scenario sample (proof obligations only)"}],
             "disagreements_checked": res.disagreements,
@@ -352,7 +353,7 @@ def finish(mod, res):
     with open(os.path.join(EVID, res.pid + ".json"), "w") as f:
         json.dump(ev, f, indent=1)
     print("%s %s: %d scenarios, %d distinct non-trivial, obligations %d/%d, disagreements %d, violations %d, %.1fs" % (
-        res.pid, res.tier, res.evaluations, len(res.nontrivial), n_ok, n_ob, res.disagreements, len(res.violations), time.time() - res.t0))
+        res.pid, res.tier, res.evaluations, len(res.nontrivial) + res.direct_distinct, n_ok, n_ob, res.disagreements, len(res.violations), time.time() - res.t0))
     return 1 if res.violations else 0
 
 
